@@ -28,6 +28,9 @@
 #include "upipe-ts/upipe_ts_sync.h"
 #include "upipe-ts/upipe_ts_check.h"
 #include "upipe-ts/upipe_ts_align.h"
+#include "upipe-ts/upipe_ts_psi_split.h"
+#include "upipe-ts/upipe_ts_split.h"
+#include "upipe-ts/uref_ts_flow.h"
 
 enum { O_C01 = 1, O_C04 = 2, O_C05 = 4, O_C20 = 8 };
 static int g_oracle = O_C01;
@@ -80,6 +83,8 @@ struct row {
     bool uses_pumps;
     bool flowdef_in_band;      /* queue: definition reaches the sink only with data */
     const char *out_def_prefix; /* expected prefix of the definition presented to the sink */
+    const char *in_def;        /* definition string the pipe expects (NULL: "block.") */
+    struct upipe *(*sub_alloc)(struct side *, int k); /* NULL: upipe_void_alloc_sub */
 };
 
 struct side {
@@ -435,6 +440,27 @@ ALLOC_VOID(rate_limit, upipe_rate_limit_mgr_alloc)
 ALLOC_VOID(ts_sync, upipe_ts_sync_mgr_alloc)
 ALLOC_VOID(ts_check, upipe_ts_check_mgr_alloc)
 ALLOC_VOID(ts_align, upipe_ts_align_mgr_alloc)
+ALLOC_VOID(ts_psi_split, upipe_ts_psi_split_mgr_alloc)
+ALLOC_VOID(ts_split, upipe_ts_split_mgr_alloc)
+
+/* output subpipes of the TS splitters are allocated with their own flow definition (filter / PID) */
+static struct upipe *sub_psi_split(struct side *s, int k)
+{
+    struct uref *f = px_flow(&s->fx, "block.mpegtspsi.", 10 + k);
+    uint8_t filter[2] = {(uint8_t)(k ? 0x42 : 0x00), 0}, mask[2] = {(uint8_t)(k ? 0xff : 0x00), 0};
+    ubase_assert(uref_ts_flow_set_psi_filter(f, filter, mask, 2));
+    struct upipe *sub = upipe_flow_alloc_sub(s->pipe, px_probe(&s->fx), f);
+    uref_free(f);
+    return sub;
+}
+static struct upipe *sub_ts_split(struct side *s, int k)
+{
+    struct uref *f = px_flow(&s->fx, "block.mpegts.", 10 + k);
+    ubase_assert(uref_ts_flow_set_pid(f, 68 + k));
+    struct upipe *sub = upipe_flow_alloc_sub(s->pipe, px_probe(&s->fx), f);
+    uref_free(f);
+    return sub;
+}
 
 /* chains of in-thread pipes: inputs and definitions enter the first, outputs are set on the last */
 static struct upipe *alloc_chain_skip_htons(struct side *s)
@@ -643,6 +669,10 @@ static const struct row rows[] = {
     {.name = "ts_check", .kind = K_RECHUNK, .alloc = alloc_ts_check, .bad_def = "pic.", .out_def_prefix = "block.mpegts.",
      .nopts = 1, .opt = {{"output_size", 3, tsz_set, osz_get, tsz_vs, "188"}}},
     {.name = "ts_align", .kind = K_RECHUNK, .alloc = alloc_ts_align, .bad_def = "pic.", .out_def_prefix = "block.mpegts."},
+    {.name = "ts_psi_split", .kind = K_RECHUNK, .alloc = alloc_ts_psi_split, .bad_def = "block.", .in_def = "block.mpegtspsi.", .out_def_prefix = "block.mpegtspsi.",
+     .has_subs = true, .sub_alloc = sub_psi_split},
+    {.name = "ts_split", .kind = K_RECHUNK, .alloc = alloc_ts_split, .bad_def = "block.", .in_def = "block.mpegts.", .out_def_prefix = "block.mpegts.",
+     .has_subs = true, .sub_alloc = sub_ts_split},
 };
 #define NROWS ((int)(sizeof(rows) / sizeof(rows[0])))
 
@@ -956,7 +986,7 @@ static int apply_side(struct st *st, struct side *s, int op, bool primary)
     struct px_fix *fx = &s->fx;
     int e = UBASE_ERR_NONE;
     if (op == OP_FLOW1 || op == OP_FLOW2 || op == OP_FLOWBAD) {
-        struct uref *f = op == OP_FLOWBAD ? px_flow(fx, g_row->bad_def, 3) : px_flow(fx, "block.", op == OP_FLOW1 ? 1 : 2);
+        struct uref *f = op == OP_FLOWBAD ? px_flow(fx, g_row->bad_def, 3) : px_flow(fx, g_row->in_def ? g_row->in_def : "block.", op == OP_FLOW1 ? 1 : 2);
         if (op == OP_FLOWBAD) { /* attributes a pipe may be tempted to read before it has validated the definition */
             ubase_assert(uref_block_flow_set_size(f, 2));
             ubase_assert(uref_block_flow_set_octetrate(f, 1000));
@@ -978,7 +1008,7 @@ static int apply_side(struct st *st, struct side *s, int op, bool primary)
         e = g_row->opt[oi].set(s, vi);
     } else if (op == OP_SUB_ALLOC) {
         int k = s->subs[0] == NULL ? 0 : 1;
-        s->subs[k] = upipe_void_alloc_sub(s->pipe, px_probe(fx));
+        s->subs[k] = g_row->sub_alloc ? g_row->sub_alloc(s, k) : upipe_void_alloc_sub(s->pipe, px_probe(fx));
         assert(s->subs[k]);
     } else if (op == OP_SUB_OUT) {
         for (int k = 0; k < 2; k++)
